@@ -53,6 +53,7 @@ type Contract struct {
 	MayPanic bool
 	Pos      string
 	Opts     map[string]string
+	Seq      int
 }
 
 type PureDecl struct {
@@ -206,6 +207,7 @@ func (cs *Contracts) parseFile(p *Program, pkgPath, fname string, f *ast.File) e
 			if _, dup := cs.ByKey[pkgPath+"."+cur.Key]; dup {
 				return fail(fmt.Errorf("duplicate contract %s", cur.Key))
 			}
+			cur.Seq = len(cs.ByKey) + 1
 			cs.ByKey[pkgPath+"."+cur.Key] = cur
 		case "serves":
 			if cur == nil {
